@@ -576,6 +576,27 @@ static void pm1_space_lengths(void)
 	}
 }
 
+/* the largest amounts one decoding step can produce: a long byte block directly followed by a long copy */
+static void pm1_space_maxout(void)
+{
+	static const int blens[] = { 1, 100, 195, 196, 197, 200, 214, 215 };
+	static const unsigned clens[] = { 2, 100, 200, 224, 225, 226, 240, 243, 244 };
+	static const int hdrs[] = { 0, 9, 31 };
+	unsigned bi, ci, hi;
+	for (hi = 0; hi < 3; ++hi)
+	for (bi = 0; bi < sizeof blens / sizeof *blens; ++bi)
+	for (ci = 0; ci < sizeof clens / sizeof *clens; ++ci) {
+		if (!vf_case("pm1 header %d: 300 bytes, then a block of %d bytes directly followed by a copy of %u, twice", hdrs[hi], blens[bi], clens[ci])) continue;
+		p1_begin(hdrs[hi]);
+		p1_gen_block(150, 3); p1_copy(0, 3, -1); p1_gen_block(147, 5); p1_copy(1, 3, -1);
+		p1_gen_block(blens[bi], ci * 3 + bi);
+		p1_copy(7, clens[ci], -1);
+		p1_gen_block(blens[bi], ci + 11);
+		p1_copy(250, clens[ci], -1);
+		p1_finish(1, 0);
+	}
+}
+
 static void pm1_space_distances(void)
 {
 	static const size_t Ts[] = { 64, 320, 576, 832, 1088, 1600, 2624, 2880, 3136, 3648, 4672, 6720, 10816, 16384 };
@@ -658,6 +679,7 @@ int main(int argc, char **argv)
 	else if (!strcmp(VF.space, "pm2-reload")) pm2_space_reload();
 	else if (!strcmp(VF.space, "pm1-headers")) pm1_space_headers();
 	else if (!strcmp(VF.space, "pm1-lengths")) pm1_space_lengths();
+	else if (!strcmp(VF.space, "pm1-maxout")) pm1_space_maxout();
 	else if (!strcmp(VF.space, "pm1-distances")) pm1_space_distances();
 	else if (!strcmp(VF.space, "pm1-seq")) pm1_space_seq(atoi(vf_extra("depth", "3")));
 	else { fprintf(stderr, "unknown space %s\n", VF.space); return 2; }
